@@ -162,13 +162,14 @@ void h_ctor(void) {
   struct kbq q; mon_reset(&q); g_allocs = 0; g_queue_inits = 0; g_alloc_n = nondet_u64(); g_div_n = 0;
   q._queue_size = nondet_u64(); q._k = nondet_size(); q._head = nondet_u64(); q._tail = nondet_u64();
   in_k = nondet_u64(); in_s = nondet_u64(); in_v = nondet_u64(); in_m = nondet_u64();
-  XV_ASSUME(in_k >= 1 && in_s >= 1);
+  /* no precondition: k = 0 and num_segments = 0 must be REJECTED (an accepted queue without slots divides by zero in every operation) */
 #ifdef XV_TRACE_SMALL
   XV_ASSUME(in_k <= 1024 && in_s <= 70000);      /* counterexample extraction only: the replay allocates the queue */
 #endif
   kbq_ctor(&q, in_k, in_s);
   if (xv_threw) { XV_CANARY("ctor.rejected"); return; }
   /* _queue_size == k*num_segments without wrap-around  <=>  (k*num_segments mod 2^64) / k == num_segments; the constructor must have made exactly this test */
+  XV_OBL("kbq.ctor.size", in_k >= 1 && in_s >= 1);            /* "every segment count the constructor accepts" has at least one slot */
   XV_OBL("kbq.ctor.size", q._queue_size >= 1 && g_div_n == 1 && g_div_a == q._queue_size && g_div_b == in_k && g_div_q == in_s);
   XV_OBL("kbq.ctor.state", q._k == in_k && q._head == 0 && q._tail == 0 && g_allocs == 1 && g_queue_inits == 1 && g_alloc_n == q._queue_size);
   if (in_v < q._queue_size) {
